@@ -322,6 +322,7 @@ class Escape:
                 out += self._call(fr, f, st, n)
             elif isinstance(n, ast.Subscript) and isinstance(n.ctx, (ast.Load, ast.Del)):
                 out += self._subscript(fr, f, st, n)
+                out += self._optional_param(fr, f, st, n.value, "subscripted")
             elif isinstance(n, ast.Attribute) and isinstance(n.ctx, ast.Load):
                 out += self._property(fr, f, st, n)
                 out += self._optional_self(fr, f, st, n)
@@ -427,6 +428,7 @@ class Escape:
             add("ValueError", "int() of header bytes")
         if isinstance(call.func, ast.Name) and call.func.id == "len" and call.args:
             out += self._optional_use(fr, f, st, call.args[0], "passed to len()")
+            out += self._optional_param(fr, f, st, call.args[0], "passed to len()")
         # S5b: Enum lookup by value: Enum(x) raises ValueError unless x is a member
         if len(call.args) == 1 and not call.keywords and isinstance(call.func, (ast.Name, ast.Attribute)) and not isinstance(call.args[0], ast.Constant):
             t = self.repo.resolve_name(fr.mod, call.func)
@@ -1017,6 +1019,30 @@ class Escape:
             return []
         return [Item("AttributeError", f"{fr.ref}: {norm(st)[:110]}", self.repo.loc(n, fr.mod), (fr.ref,), None, f"`{raw}` is Optional and " + ("tested against None elsewhere in this function" if tested else "only ever initialised conditionally") + f", but `{norm(n)}` dereferences it on a path without a None test")]
 
+    def optional_foreign(self, fr, f: Fn, st, n: ast.Attribute) -> list[Item]:
+        """S7d: `<obj>.F.attr` where obj is another object of a known class whose field F is declared Optional and is
+        left None by (a branch of) its constructor: the value exists only after some method of that class ran"""
+        base = n.value
+        if not isinstance(base, ast.Attribute) or (isinstance(base.value, ast.Name) and base.value.id == "self"):
+            return []
+        bt = self.prog.class_of_type(self.prog.expr_type(fr, base.value))
+        if not bt or bt not in self.prog.classes:
+            return []
+        t = self.prog.lookup_field(bt, base.attr) or ""
+        if t and not t.startswith("Optional["):
+            return []
+        cls = self.prog.classes[bt][1]
+        sites = self._field_sites(cls, base.attr)
+        init_none = [x for x in sites if x[0].name == "__init__" and isinstance(x[2], ast.Constant) and x[2].value is None]
+        later = [x for x in sites if x[0].name != "__init__" and not (isinstance(x[2], ast.Constant) and x[2].value is None)]
+        if not init_none or not later:
+            return []
+        if self._none_guard(f, n, base) or self._shortcircuit_guard(n, norm(base)):
+            return []
+        if self.suppressed(fr, st, "AttributeError"):
+            return []
+        return [Item("AttributeError", f"{fr.ref}: {norm(st)[:110]}", self.repo.loc(n, fr.mod), (fr.ref,), None, f"`{norm(base)}` ({bt}.{base.attr}) is Optional, None after construction and assigned later by {sorted({x[0].name for x in later})}: `{norm(n)}` dereferences it without a None test")]
+
     def _field_sites(self, cls: ast.ClassDef, field: str):
         """(method, stmt, value, ancestors-within-method) for every `self.<field> = value` in the class"""
         out = []
@@ -1124,6 +1150,40 @@ class Escape:
                 return []
             return [Item("TypeError", f"{fr.ref}: {norm(st)[:110]}", self.repo.loc(e, fr.mod), (fr.ref,), None, f"Optional message field {fld} is {how} without a None check (absent extension)")]
         return []
+
+    def _optional_param(self, fr, f: Fn, st, e, how) -> list[Item]:
+        """S7c (contradiction rule): a parameter declared Optional that the same function tests against None somewhere
+        is used here in a way that needs a value (len / subscript) on a path without such a test"""
+        if not (isinstance(e, ast.Name) and f.is_param(e.id)):
+            return []
+        arg = next((a for a in fr.node.args.posonlyargs + fr.node.args.args + fr.node.args.kwonlyargs if a.arg == e.id), None)
+        ann = norm(arg.annotation) if arg is not None and arg.annotation is not None else ""
+        if not ann.startswith("Optional["):
+            return []
+        tested = any(isinstance(x, ast.Compare) and len(x.ops) == 1 and isinstance(x.ops[0], (ast.Is, ast.IsNot)) and norm(x.left) == e.id and isinstance(x.comparators[0], ast.Constant) and x.comparators[0].value is None for x in f.nodes(ast.Compare))
+        if not tested:
+            return []
+        if self._none_guard(f, e, e) or self._shortcircuit_guard(e, e.id) or self._ifexp_guard(e, e.id):
+            return []
+        if f.assigns(chain=e.id) and any(f.before(s2, e) and not (isinstance(v2, ast.Constant) and v2.value is None) for s2, t2, v2 in f.assigns(chain=e.id)):
+            return []
+        if self.suppressed(fr, st, "TypeError"):
+            return []
+        return [Item("TypeError", f"{fr.ref}: {norm(st)[:110]}", self.repo.loc(e, fr.mod), (fr.ref,), None, f"Optional parameter `{e.id}` (tested against None elsewhere in this function) is {how} on a path without that test")]
+
+    @staticmethod
+    def _ifexp_guard(node, raw: str) -> bool:
+        """node sits in the arm of a conditional expression that the test `raw is None` / `raw is not None` selects"""
+        child = node
+        for anc in _ancestors(node):
+            if isinstance(anc, ast.IfExp):
+                t = norm(anc.test)
+                in_body = any(x is child for x in ast.walk(anc.body))
+                in_else = any(x is child for x in ast.walk(anc.orelse))
+                if (in_body and t in (f"{raw} is not None", raw)) or (in_else and t in (f"{raw} is None", f"not {raw}")):
+                    return True
+            child = anc
+        return False
 
     def _optional_args(self, fr, f: Fn, st, call, cal: FuncRef) -> list[Item]:
         out = []
